@@ -85,26 +85,40 @@ Qed.
 
 (* ---- one pattern on one parent ---- *)
 
+Lemma yield_new_spec es : forall found e, In e (yield_new es found) <-> In e es /\ ~ In e found.
+Proof.
+  induction es as [|x rest IH]; intros found e; cbn [yield_new]; [cbn; tauto|].
+  destruct (memb x found) eqn:Em.
+  - apply memb_In in Em. rewrite IH. cbn [In]. split; [tauto|]. intros [[<-|H] Hn]; tauto.
+  - apply memb_false in Em. cbn [In]. rewrite IH. cbn [In]. split.
+    + intros [<-|[H1 H2]]; tauto.
+    + intros [[<-|H] Hn]; [tauto|]. destruct (Nat.eq_dec x e); [tauto|]. right. tauto.
+Qed.
+
+Lemma yield_new_NoDup es : forall found, NoDup (yield_new es found).
+Proof.
+  induction es as [|x rest IH]; intro found; cbn [yield_new]; [constructor|].
+  destruct (memb x found); [apply IH|]. constructor; [|apply IH].
+  rewrite yield_new_spec. cbn [In]. tauto.
+Qed.
+
 Lemma stageA_pattern_fresh nk lk ch p found e :
   In e (stageA_pattern nk lk ch p found) -> ~ In e found.
 Proof.
   unfold Filter.stageA_pattern. destruct (ab p).
-  - destruct (lk p) as [x|]; [|intros []]. destruct (memb x found) eqn:E; [intros []|].
-    intros [<-|[]]. apply memb_false. exact E.
+  - rewrite yield_new_spec. tauto.
   - rewrite scan_children_spec. tauto.
 Qed.
 
 Lemma stageA_pattern_NoDup nk lk ch p found : NoDup (stageA_pattern nk lk ch p found).
 Proof.
-  unfold Filter.stageA_pattern. destruct (ab p); [|apply scan_children_NoDup].
-  destruct (lk p) as [x|]; [|constructor]. destruct (memb x found); [constructor|].
-  constructor; [intros []|constructor].
+  unfold Filter.stageA_pattern. destruct (ab p); [apply yield_new_NoDup|apply scan_children_NoDup].
 Qed.
 
-(* the lookup of this parent answers exactly the selected child, for absolute non-empty patterns *)
-Definition parent_ok (nk : bool) (lk : str -> option id) (ch : list id) : Prop :=
+(* the lookup of this parent answers exactly the selected children, for absolute non-empty patterns *)
+Definition parent_ok (nk : bool) (lk : str -> list id) (ch : list id) : Prop :=
   forall p e, ab p = true -> p <> [] ->
-    (lk p = Some e <-> In e ch /\ keyok nk e /\ em p e = true).
+    (In e (lk p) <-> In e ch /\ keyok nk e /\ em p e = true).
 
 Definition good_pats (pats : list str) : Prop := forall p, In p pats -> ab p = true -> p <> [].
 
@@ -114,16 +128,7 @@ Lemma stageA_pattern_spec nk lk ch p found e :
    In e ch /\ keyok nk e /\ ~ In e found /\ em p e = true).
 Proof.
   intros Hok Hp. unfold Filter.stageA_pattern. destruct (ab p) eqn:Ea.
-  - specialize (Hp eq_refl). pose proof (fun x => Hok p x Ea Hp) as Hk. destruct (lk p) as [x|] eqn:El.
-    + destruct (memb x found) eqn:Em.
-      * apply memb_In in Em. split; [intros []|]. intros (H1 & H2 & H3 & H4).
-        assert (Some x = Some e) as E by (apply (Hk e); auto). inversion E; subst. contradiction.
-      * apply memb_false in Em. cbn [In]. split.
-        -- intros [<-|[]]. destruct (proj1 (Hk x) eq_refl) as (H1 & H2 & H3). tauto.
-        -- intros (H1 & H2 & H3 & H4). left.
-           assert (Some x = Some e) as E by (apply (Hk e); auto). inversion E; reflexivity.
-    + split; [intros []|]. intros (H1 & H2 & H3 & H4).
-      assert (None = Some e) as E by (apply (Hk e); auto). discriminate.
+  - specialize (Hp eq_refl). rewrite yield_new_spec, (Hok p e Ea Hp). tauto.
   - apply scan_children_spec.
 Qed.
 
@@ -164,7 +169,7 @@ Qed.
 
 (* ---- all parents ---- *)
 
-Definition cands (parents : list ((str -> option id) * list id)) : list id := concat (map snd parents).
+Definition cands (parents : list ((str -> list id) * list id)) : list id := concat (map snd parents).
 
 Lemma stageA_fresh nk parents pats : forall found e,
   In e (stageA nk parents pats found) -> ~ In e found.
@@ -200,35 +205,32 @@ Proof.
       intros [(Hx & _)|Hx]; auto.
 Qed.
 
-(* ---- the linear scan of global_service.lookup answers like [parent_ok] demands when the children
-        carry pairwise different values under the key (sibling-name uniqueness, C10) ---- *)
+(* ---- the linear scan of global_service.lookup answers like [parent_ok] demands: every child
+        carrying the value (before the repair of finding C13-K5 only the first one, which needed
+        sibling-value uniqueness) ---- *)
 
 Definition uniq_keys (ch : list id) : Prop :=
   forall c1 c2 w, In c1 ch -> In c2 ch -> key c1 = Some w -> key c2 = Some w -> c1 = c2.
 
 Hypothesis abs_eq : forall p v, ab p = true -> (mt p v = true <-> v = p).
 
-Lemma scan_lookup_ok nk ch : uniq_keys ch -> parent_ok nk (scan_lookup ch) ch.
+Lemma scan_lookup_ok nk ch : parent_ok nk (scan_lookup ch) ch.
 Proof.
-  intros Hu p e Ha Hp. unfold Filter.scan_lookup, Filter.em. rewrite (abs_eq p _ Ha). split.
-  - intro H. apply find_some in H as [H1 H2]. destruct (key e) as [w|] eqn:Ek; [|discriminate].
+  intros p e Ha Hp. unfold Filter.scan_lookup, Filter.em. rewrite (abs_eq p _ Ha), filter_In. split.
+  - intros [H1 H2]. destruct (key e) as [w|] eqn:Ek; [|discriminate].
     apply str_eqb_spec in H2. subst w. split; [exact H1|]. split.
     + unfold keyok, Filter.has_key. rewrite Ek. apply orb_true_r.
     + unfold Filter.val. rewrite Ek. reflexivity.
-  - intros (H1 & _ & H3). unfold Filter.val in H3.
-    destruct (key e) as [w|] eqn:Ek; cbn in H3; [subst w|congruence].
-    destruct (find (fun c => match key c with Some w => str_eqb p w | None => false end) ch) as [x|] eqn:Ef.
-    + apply find_some in Ef as [Hx Hm]. destruct (key x) as [w|] eqn:Ex; [|discriminate].
-      apply str_eqb_spec in Hm. subst w. f_equal. eapply Hu; eauto.
-    + exfalso. apply (find_none _ _ Ef) in H1. rewrite Ek, str_eqb_refl in H1. discriminate.
+  - intros (H1 & _ & H3). unfold Filter.val in H3. split; [exact H1|].
+    destruct (key e) as [w|] eqn:Ek; cbn in H3; [subst w; apply str_eqb_refl|congruence].
 Qed.
 
-(* lookup_ok: the registered fast lookup agrees with the scan (the invariant of property C10) *)
-Definition lookup_ok (lk : str -> option id) (ch : list id) : Prop := forall p, lk p = scan_lookup ch p.
+(* lookup_ok: the registered fast lookup agrees with the scan (follows from the invariant of property C10) *)
+Definition lookup_ok (lk : str -> list id) (ch : list id) : Prop := forall p, lk p = scan_lookup ch p.
 
-Lemma lookup_ok_parent_ok nk lk ch : lookup_ok lk ch -> uniq_keys ch -> parent_ok nk lk ch.
+Lemma lookup_ok_parent_ok nk lk ch : lookup_ok lk ch -> parent_ok nk lk ch.
 Proof.
-  intros Hl Hu p e Ha Hp. rewrite Hl. apply scan_lookup_ok; assumption.
+  intros Hl p e Ha Hp. rewrite Hl. apply scan_lookup_ok; assumption.
 Qed.
 
 End StageA.
@@ -240,7 +242,7 @@ Variable key : id -> option str.
 Variable mt : str -> str -> bool.
 Variable ab : str -> bool.
 
-Definition same_answers (a b : (str -> option id) * list id) : Prop :=
+Definition same_answers (a b : (str -> list id) * list id) : Prop :=
   snd a = snd b /\ forall p, fst a p = fst b p.
 
 Lemma stageA_parent_ext nk lk lk' ch pats : (forall p, lk p = lk' p) -> forall found,
